@@ -113,6 +113,18 @@ theorem C05_waits_for_answer (tbl) (hd : Distinct tbl) (hf : Fresh tbl) (s : Sta
     (s.callers i).pc = .waiting ∧ (step s (.peerAnswer i)).isSome = true :=
   unanswered_waits tbl hd hf s hr hq i hkind hstarted hpos hans hconn hown hwb
 
+/-- **Every answered Submit can run to completion on goroutine steps alone**, from every reachable calm state (connection
+live, transport open, nothing fatal queued, application draining, no Close call): no further event from the peer, the
+application or a timer is needed.  Together with `C05_no_livelock` (every goroutine run is finite) and
+`C05_returns_own_response` (where it stops, the call has returned its own response) this is "every Submit call returns …
+the PDU whose sequence number equals that of its own request" under any schedule that keeps taking enabled goroutine steps. -/
+theorem C05_completion_reachable (tbl) (hd : Distinct tbl) (hf : Fresh tbl) (n : Nat) (s : State) (i : Nat)
+    (hkind : (tbl i).kind = .submit) (hr : ReachP tbl s) (hb : Bounded n s) (hc : Calm s)
+    (hans : (s.callers i).answered = true) (hown : (s.callers i).ownDone = false) :
+    ∃ ls s', (∀ l ∈ ls, l.internal = true) ∧ run s ls = some s' ∧
+      (s'.callers i).pc = .done (.resp ⟨(tbl i).seq, .ans i⟩) :=
+  completion_reachable tbl hd hf n i hkind (mu n s) s rfl hr hb hc hans hown
+
 /-- Watch is never wedged on a response slot that is still full (a second copy of one answer does not exist) -/
 theorem C05_watch_not_wedged (tbl) (hd : Distinct tbl) (hf : Fresh tbl) (s : State) (hr : ReachP tbl s)
     (k : Nat) (p : InPdu) (hw : s.watch = .delivering k p) : (s.callers k).box = none := by
@@ -131,6 +143,12 @@ theorem tblN_distinct : Distinct tblN := by
   exact hij (by omega)
 
 theorem tblN_fresh : Fresh tblN := by intro i; simp [tblN]
+
+/-- the calm environment is satisfiable: the initial state of the all-Submit table -/
+example : Calm (init tblN) := by
+  refine ⟨rfl, rfl, by simp [init], by simp [init], by simp [init], rfl, ?_⟩
+  intro j
+  simp [init, tblN]
 
 def scriptN : List Label :=
   [.start 0, .check 0, .write 0, .writeRet 0, .peerAnswer 0, .wPoll, .wRead, .wLookup, .wDeliver, .takeResp 0, .finish 0, .wPoll]
